@@ -121,7 +121,11 @@ class _HppDefinitionsTranslator(TranslatorBase):
             else:
                 field = '{0} {1};\n'.format(typename, member.name)
             if member.optional:
-                field = 'prophy::bool_t has_{0};\n'.format(member.name) + field
+                flag = 'prophy::bool_t has_{0};\n'.format(member.name)
+                if member.alignment > model.DISC_SIZE:
+                    # the value of an optional is aligned on its own, not on the 4 byte flag
+                    flag += padder.generate_padding(member.alignment - model.DISC_SIZE)
+                field = flag + field
             if member.padding is not None and member.padding > 0:
                 field += padder.generate_padding(member.padding)
             return field
